@@ -192,7 +192,7 @@ From GA Require Import SigTie.
 From GAGen Require Import GenSigs.
 Local Open Scope string_scope.
 
-(* the marker impls (regenerated): exactly one Send, Sync and Copy impl for the array, Copy / Sealed for the storage nodes, and 72 trait impls for array types in all *)
+(* the marker impls (regenerated): exactly one Send, Sync and Copy impl for the array, Copy / Sealed for the storage nodes, and 75 trait impls for or from array types in all *)
 Theorem C12_source_marker_impls :
   methods_of "Send for GenericArray<T,N>" = Some [] /\
   methods_of "Sync for GenericArray<T,N>" = Some [] /\
@@ -201,7 +201,7 @@ Theorem C12_source_marker_impls :
   methods_of "Copy for GenericArrayImplOdd<T,U>" = Some [] /\
   methods_of "Sealed for GenericArrayImplEven<T,U>" = Some [] /\
   methods_of "Sealed for GenericArrayImplOdd<T,U>" = Some [] /\
-  List.length gen_impl_methods = 72%nat.
+  List.length gen_impl_methods = 75%nat.
 Proof. repeat split. Qed.
 
 
